@@ -11,8 +11,10 @@ from vlib.core import Ctx, sha, NCPU, canon
 
 OPTS = ["-q", "--enable=all", "--inline-suppr", "--error-exitcode=7", "--suppress=missingIncludeSystem"]
 
-H = "static int hv(int *p) { if (p) {} return *p; }\n#define HIDX 2\n"
-A = ("#include \"h.h\"\n"
+H = "#include \"h2.h\"\nstatic int hv(int *p) { if (p) {} return *p; }\n"
+H2 = "#define HIDX 2\n"          # second-level header
+EH = "#define EH_UNUSED 1\n"       # a header that can become token-less (comment only)
+A = ("#include \"e.h\"\n#include \"h.h\"\n"
      "void fa(void) { int a[2];\n a[HIDX] = 0; }\n"
      "int ua(void) { return 1; }\n"
      "void fa2(int *p) { if (!p) { g(); }\n *p = 0; }\n")
@@ -24,7 +26,7 @@ DA = "void fda(void) { int d[4]; d[4] = 0; }\n"
 
 
 def initial():
-    return {"files": {"h.h": H, "a.c": A, "b.c": B}, "order": ["a.c", "b.c"], "touch": 0}
+    return {"files": {"h.h": H, "h2.h": H2, "e.h": EH, "a.c": A, "b.c": B}, "order": ["a.c", "b.c"], "touch": 0}
 
 
 def rep(s, name, old, new):
@@ -45,9 +47,10 @@ def e_line256(s): return rep(s, "a.c", "void fa(void)", "\n" * 256 + "void fa(vo
 def e_col1(s): return rep(s, "a.c", " a[", "  a[")
 def e_col256(s): return rep(s, "a.c", " a[", " " * 257 + "a[")
 def e_comment(s): return toggle(s, "a.c", "a[2];\n", "a[2]; // note\n")
-def e_htoken(s): return toggle(s, "h.h", "HIDX 2", "HIDX 1")
+def e_htoken(s): return toggle(s, "h2.h", "HIDX 2", "HIDX 1")
+def e_hempty(s): return toggle(s, "e.h", "#define EH_UNUSED 1\n", "// nothing left here\n")
 def e_hline256(s): return toggle(s, "h.h", "static int hv", "\n" * 256 + "static int hv")
-def e_hline1(s): return toggle(s, "h.h", "#define HIDX", "\n#define HIDX")
+def e_hline1(s): return toggle(s, "h2.h", "#define HIDX", "\n#define HIDX")
 def e_binclude(s): return toggle(s, "b.c", "#include \"h.h\"\n", "/* no include */\n")
 
 
@@ -96,7 +99,7 @@ def e_reorder(s): return dict(s, order=list(reversed(s["order"])))
 
 EDITS = collections.OrderedDict([
     ("token", e_token), ("line+1", e_line1), ("line+256", e_line256), ("col+1", e_col1), ("col+256", e_col256),
-    ("comment", e_comment), ("hdr-token", e_htoken), ("hdr-line+256", e_hline256), ("hdr-line+1", e_hline1),
+    ("comment", e_comment), ("hdr-token", e_htoken), ("hdr-empty", e_hempty), ("hdr-line+256", e_hline256), ("hdr-line+1", e_hline1),
     ("b-include", e_binclude), ("add-c", e_addc), ("add-d/a.c", e_add_da), ("rename-a", e_rename), ("touch", e_touch),
     ("swap-a-b", e_swap), ("suppress", e_suppress), ("noreturn-g", e_noreturn), ("reorder", e_reorder),
 ])
